@@ -90,14 +90,18 @@ def run(ctx):
             ctx.fail(fn + '|T|no-switch', '%s: no single match on its code' % fn)
             continue
         tb = q.switch_table(b, sws[0])
-        for v, s in sorted(tb['values'].items()):
+        ov_ = _c15.otherwise_values(b, sws[0], pidx)
+        bounded_other = ov_ is not None and set(ov_) <= set(table) and tb['otherwise'] in tb['arms']
+        rows_ = sorted(tb['values'].items()) + ([(v_, tb['otherwise']) for v_ in ov_] if bounded_other else [])
+        for v, s in rows_:
             vs = []
             via = []
             for rt in tb['arms'][s]['ret']:
-                for a in alts(rt):
+                for a in alts(_c15.specialise(b, rt, pidx, v)):
                     if q.is_err_term(a):
                         continue
                     n_, inner = _c15.variant_of(a)
+                    inner = _c15.specialise(b, inner, pidx, v)
                     vs.append(n_)
                     if fn.endswith('CelContent::parse'):
                         via.append(_c15.cel_arm_source(fx, inner) or 'unrecognised')
@@ -109,7 +113,7 @@ def run(ctx):
                 ok = ok and via == [_c15.CEL_VIA[v]]
             ctx.inst('T', '%s#%s' % (fn.split('::')[-1], v), ok, '%s %s -> %s %s; spec: %s' % (fn.split('::')[-2] + '::' + fn.split('::')[-1], v, vs,
                      [x.split('::')[-1] for x in via], table.get(v)), tb['span'], key='%s|T|%s' % (fn, v))
-        ctx.inst('T', fn.split('::')[-1] + '#other', q.arm_always_err(b, tb['otherwise']), 'unknown codes -> Err', tb['span'], key=fn + '|T|otherwise')
+        ctx.inst('T', fn.split('::')[-1] + '#other', q.arm_always_err(b, tb['otherwise']) or bounded_other, 'unknown codes -> Err', tb['span'], key=fn + '|T|otherwise')
     pf = ctx.anchor('asefile::parse::parse_pixel_format')
     if pf is not None:
         for bb, st, t in q.stmt_aggs(pf, 'asefile::file::PixelFormat', 'Indexed'):
@@ -225,6 +229,42 @@ def run(ctx):
                 ctx.inst('V', 'Indexed::as_rgba', ok_all, 'as_rgba builds %s; %s; must be [c.red, c.green, c.blue, A], A = 0 exactly under '
                          '(transparent_color_index == index) && !layer_is_background, else c.alpha' % (show(rt)[:150], detail), cb.span,
                          key=ia.name + '|V|channels')
+        elif not cls:
+            # second spelling, without the closure: `let c = palette.color(self.0 as u32)?; .. Some(Rgba([c.red(), c.green(), c.blue(), alpha]))`
+            def entry(x):
+                cs_ = [y for y in walk(x) if isinstance(y, tuple) and y and y[0] == 'call']
+                return len(cs_) == 1 and cs_[0][1] == 'asefile::palette::ColorPalette::color' and is_param(cs_[0][2][0], 2) and \
+                    strip_casts(cs_[0][2][1]) == ('field', ('param', 1, 'self'), '0')
+            aggs_ = [(bb, st, t) for bb, st, t in q.stmt_aggs(ia) if (t[1] or '').endswith('Rgba')]
+            okc = okr = oka = guard_ok = False
+            detail = 'no Rgba aggregate'
+            rt = None
+            if len(aggs_) == 1:
+                rt = aggs_[0][2]
+                arr = dict(rt[3]).get('0')
+                chan = ['red', 'green', 'blue']
+                okr = arr is not None and arr[0] == 'array' and len(arr[1]) == 4 and all(
+                    arr[1][i][0] == 'call' and arr[1][i][1] == 'asefile::palette::ColorPaletteEntry::' + chan[i] and entry(arr[1][i][2][0]) for i in range(3))
+                okc = okr
+                if okr:
+                    aa = alts(arr[1][3])
+                    oka = len(aa) == 2 and any(q.const_val(x) == 0 for x in aa) and any(
+                        x[0] == 'call' and x[1] == 'asefile::palette::ColorPaletteEntry::alpha' and entry(x[2][0]) for x in aa)
+                    zero_bbs = [d[3] for d in q.defs_in(ia, ia.cfg.reach) if q.const_val(d[2]) == 0 and ia.locals[d[0]]['ty'] == 'u8' and not d[1]]
+                    for zb in zero_bbs:
+                        conds = [(c_, tr) for c_, tr in q.deep_conds(ia, zb) if c_[0] in ('bin', 'un', 'param')]
+                        eq = [c_ for c_, tr in conds if c_[0] == 'bin' and c_[1] == 'Eq' and tr is True and
+                              {('tci' if is_param(strip_casts(x), 3) else 'idx' if strip_casts(x) == ('field', ('param', 1, 'self'), '0') else '?')
+                               for x in (c_[2], c_[3])} == {'tci', 'idx'} and
+                              all(layout.value_preserving(a_, b_) for x in (c_[2], c_[3]) for a_, b_ in q.casts_on(x)[0])]
+                        bg = [c_ for c_, tr in conds if (is_param(c_, 4) and tr is False) or
+                              (c_[0] == 'un' and c_[1] == 'Not' and is_param(c_[2], 4) and tr is True)]
+                        guard_ok = bool(eq) and bool(bg) and len(conds) == 2
+                        detail = 'alpha := 0 under %s' % [(show(c_), tr) for c_, tr in conds]
+            ctx.inst('V', 'Indexed::as_rgba#lookup', okc, 'colour is looked up with palette.color(self.0 as u32)', ia.span, key=ia.name + '|V|lookup')
+            ctx.inst('V', 'Indexed::as_rgba', okr and oka and guard_ok, 'as_rgba builds %s; %s; must be [c.red, c.green, c.blue, A], A = 0 exactly under '
+                     '(transparent_color_index == index) && !layer_is_background, else c.alpha' % (show(rt)[:150] if rt else '?', detail), ia.span,
+                     key=ia.name + '|V|channels')
         else:
             ctx.fail(ia.name + '|V|shape', 'Indexed::as_rgba no longer maps the palette entry through one closure')
     fb = ctx.anchor(PX + 'RawPixels::from_bytes')
